@@ -36,27 +36,22 @@ pub(crate) mod verif_f6 {
         dummy()
     }
 
-    /// F6: every histogram of 1..=3 symbols with counts <= 300 and at least one non-zero count, production parameters
-    #[cfg(kani)]
-    #[kani::proof]
-    #[kani::unwind(8)]
-    #[kani::stub(super::build_table_from_probabilities, stub_build_from_probs)]
-    fn f6_build_table_from_counts() {
-        let n: usize = kani::any();
-        kani::assume(n >= 2 && n <= 3); // one-symbol histograms are widened to two by build_table_from_data (see f6_single_symbol)
-        let counts: [usize; 3] = kani::any();
-        kani::assume(counts[0] <= 40 && counts[1] <= 40 && counts[2] <= 40);
-        kani::assume(counts[0] > 0 || counts[1] > 0 || (n == 3 && counts[2] > 0));
-        let max_log: u8 = kani::any();
-        kani::assume(max_log == 6 || max_log == 5);
+    /// F6: histograms of N symbols (N concrete per harness: a symbolic slice length makes every iterator loop bound symbolic and
+    /// exhausts CBMC) with symbolic counts <= 40, at least one non-zero; production parameters (zero-bit avoidance on)
+    pub(crate) fn f6_body<const N: usize, const MAXLOG: u8>() {
+        let counts: [usize; N] = vk::any();
+        let mut i = 0;
+        let mut some = false;
+        while i < N { vk::assume(counts[i] <= 40); if counts[i] > 0 { some = true; } i += 1; }
+        vk::assume(some);
         unsafe { P_CALLS = 0; }
-        let t = build_table_from_counts(&counts[..n], max_log, true);
+        let t = build_table_from_counts(&counts[..], MAXLOG, true);
         core::mem::forget(t);
         unsafe {
-            assert!(P_CALLS == 1 && P_LEN == n && P_LOG <= max_log, "F6: accuracy log must not exceed the maximum for this code type");
+            assert!(P_CALLS == 1 && P_LEN == N && P_LOG <= MAXLOG, "F6: accuracy log must not exceed the maximum for this code type");
             let mut i = 0;
             let mut maxp = 0i32;
-            while i < n {
+            while i < N {
                 if counts[i] > 0 { assert!(P_PROBS[i] >= 1, "F6: a symbol that occurs must keep probability >= 1"); }
                 if P_PROBS[i] > maxp { maxp = P_PROBS[i]; }
                 i += 1;
@@ -64,6 +59,19 @@ pub(crate) mod verif_f6 {
             assert!(maxp <= 1 << (P_LOG - 1), "F6: zero-bit avoidance: no probability above half the table");
         }
     }
+    macro_rules! f6 {
+        ($name:ident, $n:expr, $ml:expr) => {
+            #[cfg(kani)]
+            #[kani::proof]
+            #[kani::unwind(8)]
+            #[kani::stub(super::build_table_from_probabilities, stub_build_from_probs)]
+            fn $name() { f6_body::<$n, $ml>(); }
+        };
+    }
+    f6!(f6_counts2_log5, 2, 5);
+    f6!(f6_counts2_log6, 2, 6);
+    f6!(f6_counts3_log5, 3, 5);
+    f6!(f6_counts3_log9, 3, 9);
 
     /// F4 regression: data that only uses symbol 0 (e.g. all literal lengths 0)
     #[cfg(kani)]
@@ -87,6 +95,9 @@ pub(crate) mod verif_f6 {
     }
 }
 //@end
-//@harness f6_build_table_from_counts kind=proof fn=fse_encoder::build_table_from_counts props=C12,C16,C02 tier=quick bound="2..=3 symbols, counts <= 40, max_log in {5,6} (both normalisation branches reachable), zero-bit avoidance on" timeout=2400
+//@harness f6_counts2_log5 kind=proof fn=fse_encoder::build_table_from_counts props=C12,C16,C02 tier=quick bound="2 symbols, symbolic counts <= 40, max_log 5, zero-bit avoidance on" timeout=1500
+//@harness f6_counts2_log6 kind=proof fn=fse_encoder::build_table_from_counts props=C12,C16,C02 tier=quick bound="2 symbols, symbolic counts <= 40, max_log 6, zero-bit avoidance on" timeout=1500
+//@harness f6_counts3_log5 kind=proof fn=fse_encoder::build_table_from_counts props=C12,C16,C02 tier=quick bound="3 symbols, symbolic counts <= 40, max_log 5, zero-bit avoidance on" timeout=1500
+//@harness f6_counts3_log9 kind=proof fn=fse_encoder::build_table_from_counts props=C12,C16,C02 tier=quick bound="3 symbols, symbolic counts <= 40, max_log 9, zero-bit avoidance on" timeout=1500
 //@harness f6_single_symbol kind=proof fn=fse_encoder::build_table_from_data,fse_encoder::build_table_from_counts props=C16,C12 tier=quick bound="1..=4 data symbols all equal (symbol 0..=2)" timeout=2400
 //@assume build_table_from_probabilities (encoder state table construction) is replaced by a recording contract stub in f6_*: F5 (encoder tables equal decoder tables) is not built
